@@ -723,6 +723,15 @@ void f_range (int code) {
         from = (--sp)->u.number;
         if (code & 0x10)
           from = v->size - from;
+        /* clamp while still 64 bits wide; slice_array takes ints */
+        if (from < 0)
+          from = 0;
+        if (to >= v->size)
+          to = v->size - 1;
+        if (to < -1)
+          to = -1;
+        if (from > v->size)
+          from = v->size;
         put_array (slice_array (v, (int)from, (int)to));
         break;
       }
@@ -808,6 +817,11 @@ void f_extract_range (int code) {
         from = (--sp)->u.number;
         if (code)
           from = v->size - from;
+        /* clamp while still 64 bits wide; slice_array takes ints */
+        if (from < 0)
+          from = 0;
+        if (from > v->size)
+          from = v->size;
         put_array (slice_array (v, (int)from, (int)(v->size - 1)));
         break;
       }
